@@ -700,8 +700,8 @@ def inline_private_helpers(F, fn, depth=2, max_blocks=4000, light=True, also_typ
             g_ty = (g.j.get("self_ty") or "").split("<")[0]
             if g.j.get("trait") or g.j.get("in_trait") or g.id in getattr(F, "_anchor_ids", ()):
                 continue
-            if (g.j.get("method") or g.name.split("::")[-1]) in anchors and g_ty not in also_types:
-                continue        # (a name some rule looks for stays a call - except on a type the caller asked to open up)
+            if (g.j.get("method") or g.name.split("::")[-1]) in anchors and g_ty not in also_types and g.id not in also_types:
+                continue        # (a name some rule looks for stays a call - except on a type / function the caller asked to open up)
             same_type = g_ty == base_ty
             # a non-public function or method written in the same file as its caller (module privacy: only this module can call
             # it) - a free helper, or a private method put on another type of the module (`ConfigDatabase::record_creation_config`)
